@@ -1,7 +1,13 @@
 import TTV.Sexp
-/-! Driver glue for C03 — stub, replaced when the property's model is built. -/
+import TTV.Drv.RunCodec
+import TTV.Spec.C03
+/-! Driver glue for C03 (model M-Run, codecs in RunCodec). -/
 namespace TTV.Drv.C03
-open TTV
+open TTV TTV.Run
 
-def handle (_ : List Sexp) : Sexp := .atom "unimplemented"
+def drv : PropDrv Input (List Trace) :=
+  { decI := RunCodec.input?, decT := RunCodec.traces?, encT := RunCodec.ofTraces, model := model,
+    clauses := Spec.C03.clauses }
+
+def handle : List Sexp → Sexp := drv.handle
 end TTV.Drv.C03
